@@ -302,6 +302,16 @@ fn g_string(rng: &mut Rng, nchars: usize) -> G<String> {
         };
         s.push(std::char::from_u32(c).unwrap());
     }
+    // NUL characters are ordinary content (the body is zero-padded: they must not be mistaken for padding)
+    match rng.below(10) {
+        0 => {
+            for _ in 0..(1 + rng.below(9)) {
+                s.push('\0');
+            }
+        }
+        1 => s.insert(0, '\0'),
+        _ => {}
+    }
     let r = format!("(RBy {})", blist8(s.as_bytes()));
     plain(s, "TString", r)
 }
